@@ -27,6 +27,9 @@ type C14Case struct {
 	// ZeroEOF: 0 = option off; 1 = ZeroLengthSectionAsEOF on, no padding; 2,3 = option on and 1 / 3 zero
 	// bytes follow the last section (inside DataSize for CARv2)
 	ZeroEOF int `json:"zeroeof,omitempty"`
+	// Hdr, when set, replaces Roots: the header's roots as runs {count, byte length of each root CID}, every root an
+	// identity-multihash CIDv1 of exactly that many bytes (c14_m5.go)
+	Hdr [][2]int `json:"hdr,omitempty"`
 }
 
 // probeR counts how far the source has been consumed.
@@ -67,6 +70,10 @@ func runC14(c any, x *kit.Ctx) {
 		rootsName = "a"
 	}
 	_, rootRaws, nilRoots := kit.Roots(rootsName)
+	if len(cs.Hdr) > 0 {
+		rootsName = "hdr" + c14HdrKey(cs.Hdr)
+		rootRaws, nilRoots = c14HdrRoots(cs.Hdr), false
+	}
 	blks := kit.Bs(cs.Seq)
 	var rb []refcar.Block
 	for _, b := range blks {
@@ -226,6 +233,9 @@ func runC14(c any, x *kit.Ctx) {
 			if prefix > 0 {
 				tag += ":prefixed"
 			}
+			if len(cs.Hdr) > 0 {
+				tag += ":hdrshape"
+			}
 			br, err := carv2.NewBlockReader(src, bropts...)
 			x.Eval(1)
 			if err != nil {
@@ -382,6 +392,10 @@ func runC14(c any, x *kit.Ctx) {
 		}
 	}
 	x.State(fmt.Sprintf("%s|%x|%d|%d", cs.Cont, payload, cs.Prefix, cs.ZeroEOF))
+	if len(cs.Hdr) > 0 {
+		// which header length-prefix widths the header shapes realised (vacuity check of the sweep)
+		x.Outcome(fmt.Sprintf("hdrshape:length-prefix-width=%d", c14VarintLen(uint64(len(refcar.EncodeHeaderBody(rootRaws, nilRoots, 1))))))
+	}
 	x.Outcome(fmt.Sprintf("n=%d", n))
 }
 
@@ -428,6 +442,32 @@ func genC14(tier string, emit func(any)) {
 			}
 		}
 	})
+	// header shapes by size class (c14HeaderShapes: every root-CID byte length 4..300 and around 65535, header bodies
+	// around 16384 (thorough: 2^21) bytes, root counts across 23/24 and 255/256 (thorough: 65535/65536), ordered pairs
+	// of boundary lengths), each x container x a reduced set of sequences (quick: 4 fixed ones of 0-3 blocks with all
+	// their choice strings; thorough: every sequence up to 2 blocks), and once with all the options together
+	hdrSeqs := [][]string{{}, {"a"}, {"i0", "L128"}, {"L127", "a0", "s"}}
+	hdrSeqsAll := hdrSeqs
+	if tier == "thorough" {
+		kit.Seqs(names, 2, func(s []string) {
+			if len(s) > 0 {
+				hdrSeqsAll = append(hdrSeqsAll, s)
+			}
+		})
+	}
+	for _, h := range c14HeaderShapes(tier) {
+		seqs := hdrSeqsAll
+		if c14HdrBytes(h) > 100000 {
+			seqs = hdrSeqs // headers of 0.5 MB and 2 MB: the four fixed sequences in either tier
+		}
+		for _, cont := range c14Conts {
+			for _, s := range seqs {
+				emit(C14Case{Seq: s, Cont: cont, Hdr: h})
+			}
+			emit(C14Case{Seq: hdrSeqs[3], Cont: cont, Hdr: h, Trusted: true})
+			emit(C14Case{Seq: hdrSeqs[3], Cont: cont, Hdr: h, Prefix: 200, ZeroEOF: 2})
+		}
+	}
 	// sections around the 3->4 byte length-prefix boundary and larger than any copy buffer or pipe buffer
 	big := [][]string{{"L70000", "a"}, {"a", "L70000", "e"}}
 	if tier == "thorough" {
@@ -459,17 +499,23 @@ func init() {
 		Rule: "every archive with up to N blocks over an alphabet of CID widths 4..68 and section lengths at varint boundaries x {CARv1, CARv2, padded CARv2 with index} x {verifying, TrustedCAR} x EVERY Next/SkipNext choice string (2^n) " +
 			"x {bytes.Reader, plain stream, one-byte-read stream, data-with-EOF stream, wrapped *os.File, raw *os.File, *os.File over a pipe}; crossed (reduced length) with 10 header shapes (0..400 roots: length prefix 1-3 bytes, null/empty/CIDv0/sha512/duplicate roots), " +
 			"a source positioned 1/200/5000 bytes into its stream, and ZeroLengthSectionAsEOF with 0/1/3 bytes of null padding; sections of 70000 and 2^21 bytes; " +
+			"header size classes (identity-multihash roots realise every CID byte length): one root of EVERY byte length 4..300 and 65532..65538 (CBOR byte-string head of 1+len widens at 24, 256, 65536), one root such that the header body is every length 16384+-40 (thorough: 2^21+-2; length prefix 2->3, 3->4 bytes), " +
+			"n equal roots for every n in 0..40 and 250..260 (array head widens at 24, 256; thorough: 65534..65537) x root length {4,22,23,24,36}, every ordered pair of root lengths over {22,23,24,36,254,255,256}; each shape x 3 containers x a reduced sequence set (quick: 4 fixed sequences of 0..3 blocks, thorough: every sequence of <=2 blocks; shapes over 100 kB: the 4 fixed ones) with all choice strings and all sources, plus once with TrustedCAR and once with prefix 200 + ZeroLengthSectionAsEOF + 1 null byte; " +
 			"metadata compared with the reference layout, with the bytes at those offsets (SourceOffset of a seekable source handed over at a non-zero position may count from the archive start or from position 0 of the source) and with go-car's own GenerateIndex " +
 			"(where it records one offset per section of the multihash; skipped and recorded when index generation fails); the call after the last block, for every {Next,SkipNext} choice, must signal io.EOF (errors.Is); " +
 			"Version/Roots, bare and sticky io.EOF on further calls are recorded as beyond-statement outcomes only; source consumption bounded on every source kind; non-trivial = choice string mixing both calls",
 		Bound: func(tier string) map[string]any {
 			if tier == "thorough" {
-				return map[string]any{"blocks": "<=5 exhaustive over 9 block shapes, plus selected 6-block and large-section archives", "choice_strings": "all 2^n", "sources": len(c14Sources), "header_shapes": 11, "cross_product_blocks": "<=3"}
+				return map[string]any{"blocks": "<=5 exhaustive over 9 block shapes, plus selected 6-block and large-section archives", "choice_strings": "all 2^n", "sources": len(c14Sources), "header_shapes": 11, "cross_product_blocks": "<=3",
+					"header_size_shapes": len(c14HeaderShapes(tier)), "header_size_shape_sequences": "every sequence <=2 blocks + 1 of 3 blocks (4 fixed sequences for headers over 100 kB)"}
 			}
-			return map[string]any{"blocks": "<=4 exhaustive over 6 block shapes, plus large-section archives", "choice_strings": "all 2^n", "sources": len(c14Sources), "header_shapes": 10, "cross_product_blocks": "<=2"}
+			return map[string]any{"blocks": "<=4 exhaustive over 6 block shapes, plus large-section archives", "choice_strings": "all 2^n", "sources": len(c14Sources), "header_shapes": 10, "cross_product_blocks": "<=2",
+				"header_size_shapes": len(c14HeaderShapes(tier)), "header_size_shape_sequences": "4 fixed sequences of 0..3 blocks"}
 		},
 		Assumptions: []string{"refcar layout is correct", "a 'valid CAR' has a canonical DAG-CBOR header (a header go-car's lenient decoder accepts but re-encodes at another length is outside the property)",
 			"SourceOffset is relative to where the archive starts in the source (the position at which the source was handed to NewBlockReader); for a seekable source handed over at a non-zero position the absolute position in that source is accepted as well",
-			"an index may record fewer offsets than the payload has copies of a block: Offset must be among the recorded ones only when there is one per copy"},
+			"an index may record fewer offsets than the payload has copies of a block: Offset must be among the recorded ones only when there is one per copy",
+			"a root may be any CID go-cid reads back unchanged, including identity-multihash CIDs with digests of up to 2 MiB (codec raw; dag-json where raw cannot realise the length: 132 and 16389); the header stays below the default 32 MiB limit",
+			"header size classes are crossed with a reduced set of block sequences (stated in the rule), not with every archive of the main sweep"},
 	})
 }
